@@ -178,3 +178,18 @@ Proof.
     clear -H4. revert H4. generalize (h :: t). induction l as [|a l IHl]; intros H; [constructor|]. simpl in H. apply andb_prop in H. destruct H as [Ha Hl].
     constructor; [|apply IHl; exact Hl]. intros Hin. apply zmem_In in Hin. rewrite Hin in Ha. discriminate.
 Qed.
+
+(* the negated sequence undoes the sequence, whatever the members are, as long as each member's negation undoes that member *)
+Theorem neg_seq_inverse {P} (inv : (P -> P) -> (P -> P)) (fs : list (P -> P)) :
+  (forall f, In f fs -> forall p, inv f (f p) = p) -> forall p, compose_all (neg_seq inv fs) (compose_all fs p) = p.
+Proof.
+  unfold neg_seq, compose_all. induction fs as [|f fs IH]; intros H p; [reflexivity|].
+  cbn [rev fold_left]. rewrite map_app, fold_left_app. cbn [map fold_left].
+  rewrite IH; [|intros g Hg; apply H; right; exact Hg]. apply H. left. reflexivity.
+Qed.
+(* and the order matters: inverting the members WITHOUT reversing them is not an inverse in general (witness over Z) *)
+Example neg_seq_order_matters :
+  let f := fun x : Z => (2 * x)%Z in let g := fun x : Z => (x + 3)%Z in
+  let fi := fun x : Z => (x / 2)%Z in let gi := fun x : Z => (x - 3)%Z in
+  compose_all [gi; fi] (compose_all [f; g] 5%Z) = 5%Z /\ compose_all [fi; gi] (compose_all [f; g] 5%Z) <> 5%Z.
+Proof. vm_compute. split; [reflexivity | discriminate]. Qed.
